@@ -264,7 +264,7 @@ def exit_behaviour():
 # other than the input — the iteration order of a set / frozenset (per-process string hash, object
 # addresses), an enumeration of a directory, id() / hash() values, clocks and random numbers.  Every
 # such construct of every rpft module is listed with its EXPOSURE, decided from the syntax tree:
-#   member   the value is only searched, measured, compared, sorted or updated: no order can leave it
+#   member   the value is only searched, measured, compared, updated, or sorted / min / max WITHOUT a key: no order can leave it
 #   iter     it is iterated / converted to a sequence / popped: its order can reach a result
 #   escape   it is handed to other code (argument, return value, stored in a container)
 #   value    (id / hash / clock / random) the value itself is not a function of the input
@@ -274,7 +274,8 @@ SET_CTORS = {"set", "frozenset"}
 SET_METHODS_SET = {"union", "intersection", "difference", "symmetric_difference", "copy"}
 SET_METHODS_MEMBER = {"add", "update", "discard", "remove", "clear", "issubset", "issuperset", "isdisjoint", "__contains__",
                       "intersection_update", "difference_update", "symmetric_difference_update"} | SET_METHODS_SET
-ORDER_FREE_CALLS = {"len", "bool", "any", "all", "min", "max", "sum", "sorted", "set", "frozenset", "isinstance", "type", "repr_is_not_free"} - {"repr_is_not_free"}
+ORDER_FREE_CALLS = {"len", "bool", "any", "all", "set", "frozenset", "isinstance", "type"}
+ORDER_FREE_WITHOUT_KEY = {"min", "max", "sorted"}     # with key=..: ties are resolved by the iteration order
 SEQ_CALLS = {"list", "tuple", "iter", "next", "enumerate", "zip", "map", "filter", "reversed", "dict", "OrderedDict", "str", "repr", "print"}
 SEQ_METHODS = {"join", "extend", "fromkeys", "writerow", "writerows", "format"}
 DIR_CALLS = {"listdir", "scandir", "walk", "glob", "iglob", "rglob", "iterdir"}
@@ -358,6 +359,8 @@ class OrderScan:
             if isinstance(p.func, ast.Name) and n in p.args:
                 if p.func.id in ORDER_FREE_CALLS:
                     return "member"
+                if p.func.id in ORDER_FREE_WITHOUT_KEY:
+                    return "iter" if any(kw.arg == "key" for kw in p.keywords) else "member"
                 if p.func.id in SEQ_CALLS:
                     return "iter"
             if isinstance(p.func, ast.Attribute) and n in p.args and p.func.attr in SEQ_METHODS:
@@ -391,7 +394,7 @@ class OrderScan:
         if isinstance(p, ast.UnaryOp) and isinstance(p.op, ast.Not):
             return "member"
         if isinstance(p, ast.BoolOp):
-            return self.exposure(p, depth + 1) if n is p.values[-1] or True else "member"
+            return self.exposure(p, depth + 1)
         if isinstance(p, ast.BinOp):
             return "member" if self.is_set_expr(p) else "escape"
         if isinstance(p, ast.Expr):
@@ -466,7 +469,54 @@ class OrderScan:
         return self.out
 
 
+SCAN_SELFTEST_SRC = """
+import os, random, time
+def f(xs, ys):
+    a = set(xs)
+    if "x" in a: pass
+    b = set(ys)
+    for y in b: print(y)
+    c = list(set(xs))
+    d = sorted(set(xs))
+    e = max(set(xs), key=len)
+    g = {x for x in set(xs)}
+    h = set(xs) & set(ys)
+    k = ",".join({1, 2})
+    for n in os.listdir("."): pass
+    t = time.time()
+    r = random.random()
+    s = sorted(xs, key=id)
+    z = frozenset(xs)
+    return g, h, helper(z)
+class C:
+    def __init__(self):
+        self.seen = set()
+        self.todo = set()
+    def m(self, x):
+        if x in self.seen: return
+        self.seen.add(x)
+        while self.todo: x = self.todo.pop()
+def p(x, acc=set()):
+    acc.add(x)
+    return len(acc)
+"""
+SCAN_SELFTEST_EXPECTED = [
+    ("m:C.__init__", "set", "iter", 23), ("m:C.__init__", "set", "member", 22), ("m:f", "dirlist:listdir", "iter", 14),
+    ("m:f", "entropy:random.random", "value", 16), ("m:f", "entropy:time.time", "value", 15), ("m:f", "identity:key=id", "value", 17),
+    ("m:f", "set", "escape", 11), ("m:f", "set", "escape", 12), ("m:f", "set", "escape", 18), ("m:f", "set", "iter", 6),
+    ("m:f", "set", "iter", 8), ("m:f", "set", "iter", 10), ("m:f", "set", "iter", 13), ("m:f", "set", "member", 4),
+    ("m:f", "set", "member", 9), ("m:f", "set", "member", 11), ("m:p", "set", "member", 28)]
+
+
+def scan_selftest():
+    """fail closed when the scanner itself no longer classifies a fixed snippet as reviewed (e.g. another ast on a new Python)"""
+    got = sorted(OrderScan("m", ast.parse(SCAN_SELFTEST_SRC)).run())
+    if got != sorted(SCAN_SELFTEST_EXPECTED):
+        raise Refuse(f"c13 order-source scanner self-test: {got} != {sorted(SCAN_SELFTEST_EXPECTED)}")
+
+
 def order_sources(mods):
+    scan_selftest()
     out = []
     for mod in mods:
         try:
